@@ -1,6 +1,64 @@
 import PdeVerif.Json
+import PdeVerif.Model.Conserve
+import PdeVerif.Drv.C02
 namespace PdeVerif.Drv.C05
-open Lean PdeVerif
+open Lean PdeVerif PdeVerif.Stencil PdeVerif.Conserve PdeVerif.BC
+open PdeVerif.Drv.C02 (arrFn parseCond)
 
-def handlers : List (String × Handler) := []
+/-- {"cls","shape","lo","dx","op":"laplace"|"divergence","method","conservative","rank","dim",
+    "data":[padded array incl. component axis], "faces":[...as c02.ghost...]}
+ -> volume-weighted sum (without the factor pi) of the operator applied after the model set the ghost cells -/
+def integral (j : Json) : Except String Json := do
+  let cls ← fldS j "cls"
+  let shape ← fldNs j "shape"
+  let lo ← fldQs j "lo"
+  let dx ← fldQs j "dx"
+  let op ← fldS j "op"
+  let rank ← fldN j "rank"
+  let dim ← fldN j "dim"
+  let cons ← (match fldOpt j "conservative" with | some v => getB v | none => pure true)
+  let mth ← (match fldOpt j "method" with
+    | some v => do
+      let s ← getS v
+      match s with
+      | "forward" => pure Method.forward
+      | "backward" => pure Method.backward
+      | _ => pure Method.central
+    | none => pure Method.central)
+  let data ← fldQs j "data"
+  let fshape := List.replicate rank dim ++ shape.map (· + 2)
+  let a0 : List Int → Rat := arrFn fshape data.toArray
+  let facesJ ← (do getL pure (← fld j "faces"))
+  let faces ← facesJ.mapM (fun fj => do
+    let axis ← fldN fj "axis"
+    let upper ← fldB fj "upper"
+    let normal ← fldB fj "normal"
+    let dxf ← fldQ fj "dx"
+    let ncomp := if normal then rank - 1 else rank
+    let c ← parseCond (← fld fj "cond") ncomp
+    let f : Face := { shape := shape, rank := rank, axis := axis,
+                      side := if upper then .upper else .lower, normal := normal }
+    pure (f, dxf, c))
+  let a := setGhostAll faces a0
+  let n := shape.getD 0 0
+  let m := shape.getD 1 0
+  let l := shape.getD 2 0
+  let d0 := dx.getD 0 1
+  let d1 := dx.getD 1 1
+  let d2 := dx.getD 2 1
+  let r : Int → Rat := centre (lo.getD 0 0) d0
+  match cls, op, shape.length with
+  | "cart", "laplace", 1 => pure (jQ (intCart1Laplace d0 a n))
+  | "cart", "laplace", 2 => pure (jQ (intCart2Laplace d0 d1 a n m))
+  | "cart", "laplace", 3 => pure (jQ (intCart3Laplace d0 d1 d2 a n m l))
+  | "polar", "laplace", _ => pure (jQ (intPolarLaplace r d0 a n))
+  | "sph", "laplace", _ => pure (jQ (intSphLaplace cons r d0 a n))
+  | "cyl", "laplace", _ => pure (jQ (intCylLaplace r d0 d1 a n m))
+  | "cart", "divergence", 1 => pure (jQ (intCart1Divergence mth d0 a n))
+  | "cart", "divergence", 2 => pure (jQ (intCart2Divergence mth d0 d1 a n m))
+  | "sph", "divergence", _ => pure (jQ (intSphDivergence cons mth r d0 a n))
+  | "polar", "divergence", _ => pure (jQ (intPolarDivergence r d0 a n))
+  | _, _, _ => throw s!"integral of {op} not modelled for {cls}/{shape.length}"
+
+def handlers : List (String × Handler) := [("c05.integral", integral)]
 end PdeVerif.Drv.C05
